@@ -1,5 +1,5 @@
 """Texts for MANIFEST.json (what each check claims and on what it rests)."""
-HOOK_COMMITS = ["c7740f4", "35fc13a", "ef53ba1", "efa7316"]
+HOOK_COMMITS = ["c7740f4", "35fc13a", "ef53ba1", "efa7316", "9f2d833"]
 
 COMMON_NOTE = ("Trusted: Lean 4.33 kernel (axioms reported by the per-run audit: propext, Quot.sound, Classical.choice at most; no sorry / "
                "native_decide / own axioms); the hand-written Lean model of rosmar is tied to /repo only by the correspondence check "
